@@ -9,6 +9,7 @@ C11/C12/C13 (layouts).  It is an oracle-side tool: nothing here is part of a pro
 from .gospec import KEYWORDS
 
 SEMI = '\x00;'          # terminator: ';' or a newline, may be dropped before ')' and '}'
+OPTC = '\x00,'          # optional trailing comma
 OPTEXT = {"Add": "+", "Sub": "-", "Star": "*", "Quo": "/", "Rem": "%", "And": "&", "Or": "|", "Xor": "^", "Shl": "<<", "Shr": ">>", "AndNot": "&^",
           "AddAssign": "+=", "SubAssign": "-=", "MulAssign": "*=", "QuoAssign": "/=", "RemAssign": "%=", "AndAssign": "&=", "OrAssign": "|=", "XorAssign": "^=",
           "ShlAssign": "<<=", "ShrAssign": ">>=", "AndNotAssign": "&^=", "AndAnd": "&&", "OrOr": "||", "Arrow": "<-", "Inc": "++", "Dec": "--", "Equal": "==",
@@ -47,6 +48,7 @@ def field_list_params(fl, open_='(', close=')'):
     """(a, b T, c ...U)"""
     out = [open_]
     out += commas(fl['list'], field_param)
+    if fl['list']: out.append(OPTC)
     out.append(close)
     return out
 
@@ -105,6 +107,7 @@ def stmts(lst):
 def literal_value(v):
     out = ['{']
     out += commas(v['values'], keyed)
+    if v['values']: out.append(OPTC)
     out.append('}')
     return out
 
@@ -125,6 +128,7 @@ def call(v):
     out = expr(v['func']) + ['(']
     out += commas(v['args'], expr)
     if v['dots'] is not None: out.append('...')
+    if v['args']: out.append(OPTC)
     out.append(')')
     return out
 
@@ -163,7 +167,7 @@ def chan(v):
 EXPR = {
     'Call': call,
     'Index': lambda v: expr(v['left']) + ['['] + expr(v['index']) + [']'],
-    'IndexList': lambda v: expr(v['left']) + ['['] + commas(v['indices'], expr) + [']'],
+    'IndexList': lambda v: expr(v['left']) + ['['] + commas(v['indices'], expr) + [OPTC, ']'],
     'Slice': slice_,
     'Ident': ident,
     'FuncLit': lambda v: ['func'] + func_sig(v['typ']) + block(v['body']),
@@ -283,15 +287,47 @@ def value_spec(s):
     return out
 
 
+TYPE_LITS = ('TypeMap', 'TypeArray', 'TypeSlice', 'TypeFunction', 'TypeStruct', 'TypeChannel', 'TypeInterface')
+
+
+def is_type_elem(e):
+    (k, v), = e.items()
+    if k in TYPE_LITS: return True
+    if k == 'Operation':
+        if v['y'] is None: return v['op'] == 'Tiled'
+        return is_type_elem(v['x']) or is_type_elem(v['y'])
+    if k == 'Paren': return is_type_elem(v['expr'])
+    return False
+
+
+def typeparams_need_comma(tp):
+    """the Go rule for `type T[P C] …`: with a single parameter P whose constraint, read together with P, is an
+    expression (`P *C`, `P (C)`, `P *C | D`) and contains no type element (~T or a type literal), the brackets
+    are an array length unless a comma follows"""
+    if len(tp['list']) != 1: return False
+    f = tp['list'][0]
+    if len(f['name']) == 0: return True            # unnamed entry (only from accepted invalid input)
+    if len(f['name']) != 1: return False
+    c = f['typ']
+    if is_type_elem(c): return False
+    left = c
+    while True:
+        (k, v), = left.items()
+        if k == 'Operation' and v['y'] is not None: left = v['x']
+        else: break
+    (k, v), = left.items()
+    return k in ('TypePointer', 'Star', 'Paren') or (k == 'Operation' and v['y'] is None)
+
+
 def type_spec(s):
     out = [s['name']['name']]
     tp = s['params']
     if tp['pos'] is not None or tp['list']:
         fl = field_list_params(tp, '[', ']')
-        # `type T[P *C] …` would read as an array type and `type T[P] …` is one: the type-parameter list of
-        # a type declaration is always written with its (legal) trailing comma
+        # `type T[P *C] …` reads as an array type and `type T[P] …` is one: there the (always legal) trailing
+        # comma is required; elsewhere it is optional
         if tp['list']:
-            fl = fl[:-1] + [',', ']']
+            fl = fl[:-2] + [',' if typeparams_need_comma(tp) else OPTC, ']']
         out += fl
     if s['alias']: out.append('=')
     return out + expr(s['typ'])
@@ -356,5 +392,6 @@ def canonical(tokens):
     out = []
     for t in tokens:
         if t == SEMI: out.append(';\n')
+        elif t == OPTC: pass
         else: out.append(t + ' ')
     return ''.join(out)
